@@ -24,6 +24,7 @@ func c09(c *Ctx) {
 	R.Trust("go/types + go/ssa", "Go channel semantics (unbuffered errC has one reader)", "supervisor restarts a watcher whose Run returned")
 	loopVarRule(c, p, "C09.loopvar", pkgAlph)
 	c09poller(c, a)
+	c09deadline(c, a)
 	R.Assumption("liveness (eventually observed, exactly once) is not decided; only the structural necessary conditions listed in the explanation")
 
 	// ---- C09.page-exit -------------------------------------------------------------------------
@@ -686,4 +687,117 @@ func c09poller(c *Ctx, a *alphAnchors) {
 		R.Check("C09.isolate", R.Key("C09.isolate", shortFn(a.handleEvents_), "every-event-filed"), c.rel(p.Pos(instrPos(l.Header.Instrs[0]))), "every event of a received batch is put into the pending set", okAll, "an iteration over the batch can finish without filing its event (an event is skipped because of its content)")
 	}
 	R.Floor("C09.isolate.batch-loop", nloop, 1)
+}
+
+// c09deadline: every request to the Alephium node carries the client's per-request deadline: the
+// context handed to an SDK request builder is the one produced by Client.timeoutContext (or
+// context.WithDeadline/WithTimeout) — directly, or as the parameter of a function literal whose
+// caller passes such a context. The SDK uses http.DefaultClient, which has no timeout of its own,
+// so a request built on the caller's context waits for a silent node for ever and, being issued
+// synchronously from the fetch loop, stalls the watcher without anything reaching errC.
+func c09deadline(c *Ctx, a *alphAnchors) {
+	p, R := a.p, c.R
+	isCtx := func(t types.Type) bool { return t.String() == "context.Context" }
+	var bound func(v ssa.Value, depth int) bool
+	bound = func(v ssa.Value, depth int) bool {
+		if depth > 4 {
+			return false
+		}
+		v = strip(v)
+		switch x := v.(type) {
+		case *ssa.Extract:
+			if cl, ok := x.Tuple.(*ssa.Call); ok {
+				switch facts.CalleeName(&cl.Call) {
+				case "(*N/alephium.Client).timeoutContext":
+					return x.Index == 1
+				case "context.WithDeadline", "context.WithTimeout":
+					return x.Index == 0
+				}
+			}
+		case *ssa.Parameter:
+			f := x.Parent()
+			idx := -1
+			for k, q := range f.Params {
+				if q == x {
+					idx = k
+				}
+			}
+			if idx < 0 {
+				return false
+			}
+			if f.Parent() == nil {
+				// an unexported helper: every call site passes a bound context
+				if f.Object() == nil || f.Object().Exported() || len(funcRefs(p, f)) > 0 {
+					return false
+				}
+				sites := callsTo(p, f)
+				for _, s := range sites {
+					args := s.Instr.(ssa.CallInstruction).Common().Args
+					if idx >= len(args) || !bound(args[idx], depth+1) {
+						return false
+					}
+				}
+				return len(sites) > 0
+			}
+			// a function literal: find where it is handed to a callee and how that callee calls it
+			ok, found := true, false
+			eachInstr(f.Parent(), func(i ssa.Instruction) {
+				ci, isCall := i.(ssa.CallInstruction)
+				if !isCall {
+					return
+				}
+				for ai, arg := range ci.Common().Args {
+					mc, isMC := arg.(*ssa.MakeClosure)
+					if !isMC || mc.Fn != ssa.Value(f) {
+						continue
+					}
+					callee := ci.Common().StaticCallee()
+					if callee == nil {
+						ok = false
+						continue
+					}
+					if o := callee.Origin(); o != nil && len(callee.Blocks) == 0 {
+						callee = o
+					}
+					if ai >= len(callee.Params) {
+						ok = false
+						continue
+					}
+					prm := callee.Params[ai]
+					eachInstr(callee, func(j ssa.Instruction) {
+						cj, isCall := j.(ssa.CallInstruction)
+						if !isCall || cj.Common().Value != ssa.Value(prm) {
+							return
+						}
+						found = true
+						if idx >= len(cj.Common().Args) || !bound(cj.Common().Args[idx], depth+1) {
+							ok = false
+						}
+					})
+				}
+			})
+			return ok && found
+		}
+		return false
+	}
+	n := 0
+	for _, f := range p.SrcFuncs(pkgAlph) {
+		eachInstr(f, func(i ssa.Instruction) {
+			cl, ok := i.(*ssa.Call)
+			if !ok || cl.Call.IsInvoke() || cl.Call.StaticCallee() == nil {
+				return
+			}
+			callee := cl.Call.StaticCallee()
+			sig := callee.Signature
+			if sig.Recv() == nil || !strings.HasSuffix(sig.Recv().Type().String(), "ApiService") || sig.Params().Len() == 0 || !isCtx(sig.Params().At(0).Type()) {
+				return
+			}
+			if len(cl.Call.Args) < 2 {
+				return
+			}
+			n++
+			R.Check("C09.deadline", R.Key("C09.deadline", shortFn(f), "request:"+callee.Name()), c.rel(p.Pos(cl.Pos())), "the node request is built on the deadline-bound context of Client.timeoutContext", bound(cl.Call.Args[1], 0), "context = "+facts.Term(cl.Call.Args[1])+": without the per-request deadline a silent node blocks the fetch loop for ever (nothing reaches errC, nothing restarts)")
+		})
+	}
+	R.Floor("C09.deadline.requests", n, 11)
 }
